@@ -603,6 +603,7 @@ static int current_newssi_size(const ESL_NEWSSI *ns);
 static int activate_external_sort(ESL_NEWSSI *ns);
 static int parse_pkey(char *buf, ESL_PKEY *pkey);
 static int parse_skey(char *buf, ESL_SKEY *skey);
+static int cross_duplicate(ESL_NEWSSI *ns);
 static int pkeysort(const void *k1, const void *k2);
 static int skeysort(const void *k1, const void *k2);
 
@@ -990,6 +991,7 @@ esl_newssi_AddAlias(ESL_NEWSSI *ns, const char *alias, const char *key)
  *            
  * Returns:   <eslOK>       on success;
  *            <eslEDUP>     if primary or secondary keys aren't all unique
+ *                          (an alias that is also a primary key included);
  *            <eslERANGE>   if index size exceeds system's maximum file size;
  *            <eslESYS>     if any of the steps of an external sort fail.
  *
@@ -1099,6 +1101,9 @@ esl_newssi_Write(ESL_NEWSSI *ns)
       qsort((void *) ns->pkeys, ns->nprimary,   sizeof(ESL_PKEY), pkeysort); 
       qsort((void *) ns->skeys, ns->nsecondary, sizeof(ESL_SKEY), skeysort); 
     }
+
+  /* A key must be unique over both classes: an alias equal to a primary key could never be found. */
+  if ((status = cross_duplicate(ns)) != eslOK) goto ERROR;
 
   /* Write the header
    */
@@ -1440,6 +1445,47 @@ parse_skey(char *buf, ESL_SKEY *skey)
   return eslOK;
 
  ERROR:
+  return status;
+}
+
+/* cross_duplicate()
+ * 
+ * Both key classes have just been sorted (arrays in memory, or tmpfiles
+ * reopened for reading). One merge pass over the two sorted lists finds
+ * a key that is both a primary key and an alias. External tmpfiles are
+ * rewound afterwards.
+ * 
+ * Returns <eslOK> if there is none; <eslEDUP> if there is one;
+ *         <eslESYS> if a sorted tmpfile can't be read back.
+ */
+static int
+cross_duplicate(ESL_NEWSSI *ns)
+{
+  char    *pbuf = NULL, *sbuf = NULL;   /* esl_fgets() buffers: a line of ptmp, of stmp  */
+  int      pn   = 0,     sn   = 0;
+  uint64_t i    = 0,     j    = 0;      /* current primary key, current alias            */
+  int      c    = 0;                    /* strcmp(primary, alias); 0 = nothing read yet  */
+  ESL_PKEY pkey;
+  ESL_SKEY skey;
+  int      status = eslOK;
+
+  while (i < ns->nprimary && j < ns->nsecondary)
+    {
+      if (ns->external) 	/* read the next line of the list(s) we just advanced in */
+	{
+	  if (c <= 0 && (esl_fgets(&pbuf, &pn, ns->ptmp) != eslOK || parse_pkey(pbuf, &pkey) != eslOK)) ESL_XFAIL(eslESYS, ns->errbuf, "read from sorted primary key tmpfile failed");
+	  if (c >= 0 && (esl_fgets(&sbuf, &sn, ns->stmp) != eslOK || parse_skey(sbuf, &skey) != eslOK)) ESL_XFAIL(eslESYS, ns->errbuf, "read from sorted secondary key tmpfile failed");
+	}
+      else { pkey = ns->pkeys[i]; skey = ns->skeys[j]; }
+
+      if ((c = strcmp(pkey.key, skey.key)) == 0) ESL_XFAIL(eslEDUP, ns->errbuf, "keys not unique: '%s' is both a primary key and an alias", pkey.key);
+      if (c < 0) i++; else j++;
+    }
+  if (ns->external) { rewind(ns->ptmp); rewind(ns->stmp); }
+
+ ERROR:
+  free(pbuf);
+  free(sbuf);
   return status;
 }
 
